@@ -26,13 +26,13 @@ theorem toNat_commit : Step.commit.toNat = 8 := rfl
   unfold enterPrevote; split <;> simp
 @[simp] theorem enterPrecommit_height (cfg : Config) (h r : Nat) (σ : State) :
     (enterPrecommit cfg h r σ).height = σ.height := by
-  unfold enterPrecommit; split <;> simp
+  unfold enterPrecommit; (repeat' split) <;> simp
 @[simp] theorem enterPrecommit_votes (cfg : Config) (h r : Nat) (σ : State) :
     (enterPrecommit cfg h r σ).votes = σ.votes := by
-  unfold enterPrecommit; split <;> simp
+  unfold enterPrecommit; (repeat' split) <;> simp
 @[simp] theorem enterPrecommit_ttp (cfg : Config) (h r : Nat) (σ : State) :
     (enterPrecommit cfg h r σ).ttp = σ.ttp := by
-  unfold enterPrecommit; split <;> simp
+  unfold enterPrecommit; (repeat' split) <;> simp
 @[simp] theorem enterPrevoteWait_height (h r : Nat) (σ : State) : (enterPrevoteWait h r σ).height = σ.height := by
   unfold enterPrevoteWait; split <;> rfl
 @[simp] theorem enterPrevoteWait_votes (h r : Nat) (σ : State) : (enterPrevoteWait h r σ).votes = σ.votes := by
@@ -54,7 +54,7 @@ theorem enterPrecommit_step (cfg : Config) (σ : State) :
     6 ≤ (enterPrecommit cfg σ.height σ.round σ).step.toNat ∧
     (σ.step.toNat < 6 → (enterPrecommit cfg σ.height σ.round σ).step = .precommit) ∧
     (6 ≤ σ.step.toNat → (enterPrecommit cfg σ.height σ.round σ).step = σ.step) := by
-  unfold enterPrecommit
+  rw [enterPrecommit_le cfg σ.height σ.round σ (Nat.le_refl _)]
   split
   · rename_i hg
     refine ⟨rfl, ?_, fun hlt => ?_, fun _ => rfl⟩ <;> simp only [toNat_prevote, toNat_precommit, toNat_prevoteWait] at hg <;> omega
@@ -145,9 +145,11 @@ theorem toNat_ge8 (s : Step) (h : 8 ≤ s.toNat) : s = .commit := by
   unfold enterNewRound
   split
   · rfl
-  · obtain ⟨extra, b1, -⟩ := newRoundPrep_spec cfg r σ
-    simp only
-    (repeat' split) <;> simp [b1]
+  · split
+    · rfl
+    · obtain ⟨extra, b1, -⟩ := newRoundPrep_spec cfg r σ
+      simp only
+      (repeat' split) <;> simp [b1]
 
 /-- `enterPropose` for the current height and round: afterwards the step is Propose or later -/
 theorem enterPropose_step (cfg : Config) (nb : Option Nat) (σ : State) :
@@ -182,13 +184,22 @@ theorem enterNewRound_same (cfg : Config) (nb : Option Nat) (σ : State) :
     · exact h rfl
     · omega
     · exact h.2 hs
-  · obtain ⟨extra, b1, b2, b3, -⟩ := newRoundPrep_spec cfg σ.round σ
+  · rename_i hg
+    have hnh : σ.step = .newHeight := by
+      by_cases e : σ.step = .newHeight
+      · exact e
+      · exact absurd (Or.inr (Or.inr ⟨rfl, e⟩)) hg
+    rw [if_neg (by rw [hnh]; decide)]
+    obtain ⟨extra, b1', b2', b3', -⟩ := newRoundPrep_spec cfg σ.round σ
+    have b1 : (releaseStale cfg (newRoundPrep cfg σ.round σ)).height = σ.height := by rw [releaseStale_height, b1']
+    have b2 : (releaseStale cfg (newRoundPrep cfg σ.round σ)).round = σ.round := by rw [releaseStale_round, b2']
+    have b3 : (releaseStale cfg (newRoundPrep cfg σ.round σ)).step = .newRound := by rw [releaseStale_step, b3']
     simp only
     split
     · split
-      · exact ⟨by simp [b2], fun _ => by simp [b3, toNat_newRound]⟩
-      · exact ⟨b2, fun _ => by simp [b3, toNat_newRound]⟩
-    · have := enterPropose_step cfg nb (newRoundPrep cfg σ.round σ)
+      · exact ⟨by simp [b2'], fun _ => by simp [b3', toNat_newRound]⟩
+      · exact ⟨b2, fun _ => by simp [b3', toNat_newRound]⟩
+    · have := enterPropose_step cfg nb (releaseStale cfg (newRoundPrep cfg σ.round σ))
       rw [b1, b2] at this
       exact ⟨this.1, fun _ => by omega⟩
 
